@@ -68,6 +68,7 @@ def all_commands(alphabet, maxdigits):
 # from then until the next terminator is transferred belongs to it.
 
 M_IDLE = (None, 0, 0, 0, 0)
+M_K_DONE = ('K', 0, 0, 0, 0)
 _STROBE_KIND = ('I', 'V', 'O')          # obs[0], obs[1], obs[2]
 _STROBE_NAME = ('set_index_in', 'set_v_in', 'set_index_out')
 _DATA_NAME = ('index_in', 'v_in', 'index_out')
@@ -126,12 +127,13 @@ def mon_observe(m, prev, cur, widths):
             return m, ('extra_pulse', 'clk_pulse pulses but the outstanding command is %s' % (
                 'none' if kind is None else '%s<%X>' % (kind, n)))
         if left == 0:
-            return m, ('clk_pulse_count', 'K<%X>: more than %d clk_pulse pulses' % (n, n))
+            return m, ('clk_pulse_count', 'more clk_pulse pulses than the K command asked for')
         left -= 1
     m2 = (kind, n, main, start, left)
     # forget a command that is complete and whose strobes are all low again (merges product states)
+    # (a finished K command stays recognisable so that one pulse too many is reported as a wrong count)
     if kind is not None and not (cur[0] or cur[1] or cur[2] or cur[3] or cur[4]) and mon_unsatisfied(m2) is None:
-        m2 = M_IDLE
+        m2 = M_K_DONE if kind == 'K' else M_IDLE
     return m2, None
 
 
